@@ -31,7 +31,18 @@ F_OK2 = rs("t/f2", [["uint32[]", "xs"], ["string", "s"]], ["[2]", "'fine'"])
 U1 = rs("u/v_w", [["string", "s"], ["varint", "n"]], ["'one'", "1"])
 U2 = rs("u/v/w", [["string", "s"], ["varint", "n"]], ["'two'", "2"])
 
-SHAPES = {"F_BAD2": F_BAD2, "F_OK2": F_OK2, "U1": U1, "U2": U2, "F_BAD": F_BAD, "F_OK": F_OK, "A": A, "A2": A2, "C": C, "BIG": BIG, "E": E, "N_A": N_A, "N_X": N_X, "G": G, "G_X": G_X, "G_ALT": G_ALT}
+# descriptors that come into being through another path than RecordDescriptor(name, fields), from a base that is already in use
+D_BASE = rs("t/d", [["string", "a"]], ["'va'"])
+D_EXT = dict(rs("t/d", [["string", "a"], ["varint", "n"]], ["'va'", "1"]), via=["extend", 1])
+D_CLONE = dict(rs("t/dclone", [["string", "a"]], ["'vc'"]), via=["clone", "t/d"])
+D_STR = dict(rs("t/dstr", [["string", "a"], ["varint", "n"]], ["'vs'", "2"]), via=["strdef"])
+D_UNP = dict(rs("t/d", [["string", "a"], ["varint", "n"]], ["'vu'", "3"]), via=["unpack"])  # equal to D_EXT's, another object
+D_MERGE = dict(rs("t/d", [["string", "a"], ["boolean", "c"]], ["'vm'", "True"]), via=["merge", 1])
+# same name and field names, types differ only in the backwards-compatible alias spelling
+AL1 = rs("t/al", [["string", "s"], ["net.ipaddress", "ip"], ["net.ipnetwork[]", "nets"]], ["'x'", "'1.2.3.4'", "['10.0.0.0/8']"])
+AL2 = rs("t/al", [["wstring", "s"], ["net.IPAddress", "ip"], ["net.IPNetwork[]", "nets"]], ["'x'", "'1.2.3.4'", "['10.0.0.0/8']"])
+
+SHAPES = {"D_BASE": D_BASE, "D_EXT": D_EXT, "D_CLONE": D_CLONE, "D_STR": D_STR, "D_UNP": D_UNP, "D_MERGE": D_MERGE, "AL1": AL1, "AL2": AL2, "F_BAD2": F_BAD2, "F_OK2": F_OK2, "U1": U1, "U2": U2, "F_BAD": F_BAD, "F_OK": F_OK, "A": A, "A2": A2, "C": C, "BIG": BIG, "E": E, "N_A": N_A, "N_X": N_X, "G": G, "G_X": G_X, "G_ALT": G_ALT}
 
 
 def small(spec):
@@ -86,7 +97,7 @@ def cases(tier, seed):
     import itertools
 
     for k in range(1, L + 1):
-        pool = names if k <= 2 else (["A", "A2", "C", "N_A", "N_X", "G", "G_X", "G_ALT", "BIG", "F_BAD", "F_OK", "F_BAD2", "F_OK2", "U1", "U2"] if k == 3 else ["A", "A2", "N_X", "G_X", "G", "G_ALT"])
+        pool = names if k <= 2 else (["A", "A2", "C", "N_A", "N_X", "G", "G_X", "G_ALT", "BIG", "F_BAD", "F_OK", "F_BAD2", "F_OK2", "U1", "U2", "D_BASE", "D_EXT", "D_CLONE", "AL1", "AL2"] if k == 3 else ["A", "A2", "N_X", "G_X", "G", "G_ALT"])
         for seq in itertools.product(pool, repeat=k):
             yield {"kind": "s4", "t": "seq", "shape": list(seq), "records": [SHAPES[n] for n in seq]}
     # S5 atoms wrapped as record / record[] / grouped member
